@@ -12,8 +12,9 @@ import random
 import struct
 
 import mido
-from mido import MetaMessage, MidiFile, UnknownMetaMessage
+from mido import MetaMessage, MidiFile, MidiTrack, UnknownMetaMessage
 
+from .. import gen as gen_mod
 from ..ref import meta as rmeta
 from ..ref import smf
 
@@ -461,6 +462,7 @@ def run(ctx):
         n += rejections(ctx)
         n += integral_types(ctx)
         n += sequencer_specific(ctx)
+        n += exotic_int_cases(ctx)
         n += other_charsets(ctx)
         n += unknown_meta(ctx, rng)
         n += malformed_from_bytes(ctx)
@@ -499,6 +501,50 @@ def run(ctx):
     ctx.put_sample({'type': 'text', 'len': 128, 'style': 'high'})
 
 
+def exotic_int_cases(ctx):
+    """Integer attributes given as bool / int subclass / IntEnum member / numpy-like Integral: same bytes
+    as with plain ints, and decoding gives the plain message."""
+    n = 0
+    table = [('set_tempo', {'tempo': 500001}), ('set_tempo', {'tempo': 1}), ('sequence_number', {'number': 513}),
+             ('sequence_number', {'number': 1}), ('channel_prefix', {'channel': 1}), ('midi_port', {'port': 0}),
+             ('time_signature', {'numerator': 3, 'denominator': 8, 'clocks_per_click': 24, 'notated_32nd_notes_per_beat': 8}),
+             ('smpte_offset', {'frame_rate': 25, 'hours': 1, 'minutes': 59, 'seconds': 0, 'frames': 24, 'sub_frames': 99}),
+             ('sequencer_specific', {'data': (1, 0, 255)})]
+    for t, a in table:
+        plain = MetaMessage(t, time=3, **a)
+        ref = rmeta.encode(t, a)
+        for k in range(4):
+            kw = {}
+            for name, v in a.items():
+                if name == 'data':
+                    kw[name] = tuple(gen_mod.exotic_ints(x)[k % 2] for x in v)
+                elif name == 'frame_rate':
+                    kw[name] = v
+                else:
+                    vs = gen_mod.exotic_ints(v)
+                    kw[name] = vs[k % len(vs)]
+            case = {'kind': 'exotic-ints', 'type': t, 'attrs': {n_: repr(v) for n_, v in kw.items()}}
+            try:
+                m = MetaMessage(t, time=gen_mod.exotic_ints(3)[k % 2], **kw)
+                b = m.bytes()
+                ctx.check('bytes == FF type VLQ(len) payload (reference)', list(b) == list(ref), f'exotic-ints-bytes:{t}', case,
+                          lambda: {'got': [repr(x) for x in b][:10], 'ref': list(ref)[:10]})
+                d = MetaMessage.from_bytes([int(x) for x in b])
+                ctx.check('from_bytes(bytes) == message', d == plain.copy(time=0) and d == m.copy(time=0), f'exotic-ints-decode:{t}', case,
+                          lambda: repr(d)[:160])
+                mid = MidiFile()
+                mid.tracks.append(MidiTrack([m]))
+                buf = io.BytesIO()
+                mid.save(file=buf)
+                back = MidiFile(file=io.BytesIO(buf.getvalue())).tracks[0][0]
+                ctx.check('track reader == message', back == plain, f'exotic-ints-file:{t}', case, lambda: repr(back)[:160])
+            except Exception as exc:
+                ctx.fail('bytes == FF type VLQ(len) payload (reference)', f'exotic-ints:{t}:{type(exc).__name__}', case,
+                         f'{type(exc).__name__}: {exc}')
+            n += 1
+    return n
+
+
 def cold_jobs():
     """Cold start: the first meta-message calls of a fresh interpreter, made by two threads."""
     from ..coldstart import msg_want
@@ -523,6 +569,9 @@ def cold_jobs():
 
 def replay(ctx, case):
     k = case['kind']
+    if k == 'exotic-ints':
+        exotic_int_cases(ctx)
+        return
     if k == 'cold':
         from .. import coldstart
         coldstart.replay(ctx, case, 'from_bytes(bytes) == message')
